@@ -14,6 +14,7 @@ func init() {
 	verifHarnesses["VerifHarness_C17_setdesired"] = VerifHarness_C17_setdesired
 	verifHarnesses["VerifHarness_C17_fleet"] = VerifHarness_C17_fleet
 	verifHarnesses["VerifHarness_C17_after_delete"] = VerifHarness_C17_after_delete
+	verifHarnesses["VerifHarness_C17_sequence"] = VerifHarness_C17_sequence
 	verifHarnesses["VerifHarness_C18"] = VerifHarness_C18
 	verifHarnesses["VerifHarness_C19"] = VerifHarness_C19
 }
@@ -351,4 +352,42 @@ func VerifHarness_C17_after_delete() {
 		}
 	}
 	verifAssert("C17.after-delete-one-call", n == 1 && err == nil)
+}
+
+
+// VerifHarness_C17_sequence: a scale-up that AWS (or the provider's own bounds
+// check) rejected leaves no trace: a following scale-up on the same group sets
+// exactly (the ASG's desired capacity at call time) + d and honours the maximum.
+func VerifHarness_C17_sequence() {
+	desired := verifInt("desired", 0, 4)
+	max := verifInt("max", 1, 12)
+	verifAssume(desired <= max)
+	w := newAWSWorld(0, max, desired, 0, cloudprovider.AWSNodeGroupConfig{})
+	d1 := verifInt("d1", 1, 4)
+	d2 := verifInt("d2", 1, 4)
+	w.J.FailBudget = 1 // the first SetDesiredCapacity may fail (throttling)
+	err1 := w.ng.IncreaseSize(d1)
+	if err1 == nil {
+		// after an accepted request escalator does not scale the group again before the next
+		// Refresh (one scale action per scan, then the cool-down lock): not a history it produces
+		verifReach("C17.first-accepted")
+		return
+	}
+	w.J.FailBudget = w.J.Failed
+	real := w.asg.Desired
+	mark := len(w.J.Calls)
+	err2 := w.ng.IncreaseSize(d2)
+	n := 0
+	for _, e := range w.J.Calls[mark:] {
+		if e.Kind == "SetDesiredCapacity" {
+			n++
+			verifAssert("C17.sequence-sets-current-plus-d", e.N == real+d2)
+		}
+	}
+	legal := real+d2 <= max
+	verifAssert("C17.sequence-one-call-iff-legal", verifAnd(verifImplies(legal, n == 1), verifImplies(verifNot(legal), n == 0)))
+	verifAssert("C17.sequence-error-iff-rejected", verifImplies(verifNot(legal), err2 != nil))
+	if err1 != nil {
+		verifReachIf("C17.second-scale-up-after-rejected-first", legal)
+	}
 }
